@@ -42,6 +42,7 @@ type Profile struct {
 	AimPct         int  // chance per block that the block time is aimed at a pending maturity / jail expiry (+-1 s)
 	SecondDenom    bool // some genesis accounts also hold a second denomination ("abc"); fees may be offered in it
 	Whale          bool // one account holds ~2^90 tokens and stakes amounts whose power does not fit an int64
+	SubSecond      bool // block times carry nanoseconds (Tendermint's do); jail expiries, maturities and evidence ages are hit to the nanosecond
 	MinStakeRaises bool // governance may raise pos/StakeMinimum in mid-history
 	NoDAOOwner     bool // genesis leaves the DAO owner empty (the shipped default): nobody may spend DAO funds
 	QueryHeavy     bool // reads are mostly /store/<name>/key queries over interesting keys and heights
@@ -286,11 +287,16 @@ func (w *World) beginSpec() *BeginSpec {
 		if len(targets) > 0 {
 			i := w.R.Intn(len(targets))
 			t := targets[i].Add(time.Duration(w.R.PickI64(-1, 0, 0, 1)) * time.Second)
+			if w.P.SubSecond {
+				// one nanosecond / a fraction of a second either side of the target as well
+				t = targets[i].Add(time.Duration(w.R.PickI64(-1000000000, -999999999, -500000000, -1, 0, 0, 1, 1000000000)))
+			}
 			if t.After(w.Now) {
-				step = int64(t.Sub(w.Now) / time.Second)
 				if who[i] != "" {
 					w.forceUnjail = append(w.forceUnjail, who[i])
 				}
+				w.Now = t
+				return w.finishBeginSpec(e, h, cp)
 			}
 		}
 	} else if w.R.Chance(3) && cp.Unstaking > 0 {
@@ -300,11 +306,14 @@ func (w *World) beginSpec() *BeginSpec {
 		step = 0
 	}
 	w.Now = w.Now.Add(time.Duration(step) * time.Second)
+	if w.P.SubSecond {
+		w.Now = w.Now.Add(time.Duration(w.R.PickI64(0, 1, 999999999, 500000000, w.R.Int63n(1000000000))))
+	}
 	return w.finishBeginSpec(e, h, cp)
 }
 
 func (w *World) finishBeginSpec(e *Env, h int64, cp CurParams) *BeginSpec {
-	b := &BeginSpec{Height: h, Time: w.Now.Unix()}
+	b := &BeginSpec{Height: h, Time: w.Now.Unix(), TimeNs: int64(w.Now.Nanosecond())}
 	if vs := e.Chain.Vals[h]; vs != nil && vs.Size() > 0 {
 		b.Proposer = hx(vs.GetProposer().Address)
 	}
@@ -350,7 +359,7 @@ func EvidenceClass(v *View, cp CurParams, ev EvidSpec, now time.Time) string {
 	if !v.PubRel[ev.Addr] {
 		return "unknown"
 	}
-	age := now.Sub(time.Unix(ev.Time, 0))
+	age := now.Sub(ev.At())
 	if age > cp.MaxEvAge {
 		return "old"
 	}
@@ -393,12 +402,17 @@ func (w *World) pickEvidence(h int64, cp CurParams) *EvidSpec {
 				pw = 1 + w.R.Int63n(pw)
 			}
 		}
-		ev := &EvidSpec{Addr: a, Power: pw, Height: eh, Time: e.Chain.Times[eh].Unix(), Total: vs.TotalVotingPower()}
+		ev := &EvidSpec{Addr: a, Power: pw, Height: eh, Time: e.Chain.Times[eh].Unix(), TimeNs: int64(e.Chain.Times[eh].Nanosecond()), Total: vs.TotalVotingPower()}
 		if w.R.Chance(w.P.OldEvPct) {
-			ev.Time = w.Now.Add(-cp.MaxEvAge - time.Duration(1+w.R.Intn(3))*time.Second).Unix()
+			t := w.Now.Add(-cp.MaxEvAge - time.Duration(1+w.R.Intn(3))*time.Second)
+			if w.P.SubSecond && w.R.Bool() {
+				t = w.Now.Add(-cp.MaxEvAge - time.Nanosecond) // one nanosecond too old
+			}
+			ev.Time, ev.TimeNs = t.Unix(), int64(t.Nanosecond())
 		} else if w.R.Chance(30) {
 			// age exactly at / just inside the window
-			ev.Time = w.Now.Add(-cp.MaxEvAge + time.Duration(w.R.PickI64(0, 0, 1, 30))*time.Second).Unix()
+			t := w.Now.Add(-cp.MaxEvAge + time.Duration(w.R.PickI64(0, 0, 1, 30))*time.Second)
+			ev.Time, ev.TimeNs = t.Unix(), int64(t.Nanosecond())
 		}
 		cls := EvidenceClass(w.View(), cp, *ev, w.Now)
 		fatal := cls != "valid"
